@@ -299,8 +299,10 @@ def handleChain (c : Json) : JE Json := do
           let depth := (levels[l]?.map (·.depth)).getD 0
           let m : Option (StL → StL) := modD.map fun d => fun (s : StL) =>
             { s with ctr := s.ctr.modify 0 (· + d * (depth + 1)) }
-          let own := (levels[l]?.map (·.stateful)).getD false && st.vis.getD l none == some l
-          (m, if own then st.cells[l]? else none)
+          -- what the level's context carries, and what its interrupt handler saves of it
+          let declares := (levels[l]?.map (·.stateful)).getD false
+          let ctxState : Option StL := (st.vis.getD l none).bind fun c => st.cells[c]?
+          (m, saveAt Expected.C11.cpSavesOwnStateOnly declares ctxState)
         atCut := atCut ++ [J.mkArr ((active.zip lv).filterMap fun (l, x) =>
           x.2.map fun s => Json.mkObj [("l", (l : Json)), ("ctr", J.mkNats s.ctr),
             ("seq", (s.seq : Json)), ("order", J.mkNats s.order)])]
